@@ -28,7 +28,7 @@ EXPLANATION = (
     "attribute is merged into the instance and the per-instance result into the file counters on every path; (R4) the "
     "reference tool's exit gate; (R5) no local ErrorDescriptor that was handed to a callee or merged into is dropped "
     "unread, and no Severity-returning part reader is called with both its result and its descriptor ignored. "
-    "Not decided: that each violation class is recognised in every position of a file; confinement to the instance.")
+    "(R7) the instance step of both passes is not guarded by the stream state. (R8) a function that has recorded a violation (constant raise <= INCOMPLETE) in the caller's ErrorDescriptor returns, on every flag-consistent path, that descriptor's severity, a constant/local <= INCOMPLETE or the result of a call given the same descriptor - never a clean or unrelated severity that callers would assign over it. Not decided: that each violation class is recognised in every position of a file; confinement to the instance.")
 
 T = os.path.join(os.path.dirname(__file__), "..", "tables")
 RAISERS = {"GreaterSeverity", "severity", "AppendFromErrorArg"}
